@@ -163,7 +163,8 @@ enum Op {
     Flush,
     Close,
     /// a conversion of the `Framed` that must carry the write buffer over:
-    /// 0 into_map_codec, 1 replace_codec, 2 into_map_io, 3 into_parts + from_parts
+    /// 0 into_map_codec, 1 replace_codec, 2 into_map_io, 3 into_parts + from_parts;
+    /// 4 is not a conversion: the read side is polled to end of stream
     Convert(u8),
 }
 
@@ -235,6 +236,19 @@ fn run_case(c: &Case, verbose: bool) -> Result<Outcome, (&'static str, String)> 
             t.op_io_calls = 0;
         }
         let buffered_before = accepted.len() - framed.io_ref().written.len();
+        if let Op::Convert(4) = op {
+            // the read direction reaches end of stream (the peer has half-closed): writing goes on
+            let mut n = 0;
+            while !matches!(futures_core::Stream::poll_next(framed.as_mut(), &mut cx), Poll::Ready(None)) {
+                n += 1;
+                if n > 8 {
+                    return Err(("read-side-does-not-end", format!("op {i}: poll_next on a transport at end of stream did not return None")));
+                }
+            }
+            may_send = false;
+            out.ops += 1;
+            continue;
+        }
         if let Op::Convert(kind) = op {
             let f = *Pin::into_inner(framed);
             let f = match kind {
@@ -470,7 +484,7 @@ pub fn run(args: &Args) -> i32 {
                 if pos < l.len() && l[pos] == Op::Send {
                     continue; // a start_send must directly follow its poll_ready
                 }
-                for kind in 0..4u8 {
+                for kind in 0..5u8 {
                     let mut n = l.clone();
                     n.insert(pos, Op::Convert(kind));
                     v.push(n);
